@@ -420,3 +420,9 @@ package geom
 //@   requires fn != nil && SeqInv(seq)
 //@   ensures SeqInv(result) && result.ctype == seq.ctype && NPts(result) == NPts(seq) && fresh(result.floats)
 //@   loop 0 invariant 0 <= i && i <= n && n == NPts(seq) && ctype == seq.ctype && len(floats) == i * Dim(seq.ctype) && offset(floats) == 0 && (cap(floats) == 0 || fresh(floats)) && cap(floats) >= n * Dim(seq.ctype)
+
+//@ func Geometry.TransformXY
+//@   requires fn != nil
+
+//@ func snapToGridXY
+//@   ensures result != nil
